@@ -151,7 +151,7 @@ func c08Run(c *runner.Ctx) {
 	r := c.R
 	var w *gen.World
 	var err error
-	if c.Idx == 0 {
+	if c.Idx%150 == 0 {
 		w, err = gen.GenWorld(r, c.TmpDir, fmt.Sprintf("w%d", c.Idx), gen.WorldOpts{Jumbo: true})
 	} else {
 		w, err = gen.GenWorld(r, c.TmpDir, fmt.Sprintf("w%d", c.Idx), gen.WorldOpts{MaxDocs: 120})
@@ -357,7 +357,7 @@ func init() {
 		Rule: "cases = worlds (one jumbo); per (segment, field incl. two unknown names): 5 enumerations — full, a degenerate start==end range on an existing term, and ranges with nil / existing-term / between-term / single-byte bounds (start<=end, non-empty) combined with no automaton, a prefix automaton, an always-match automaton, vellum regexp and levenshtein automata (evaluated on the model side by running the same automaton over every live term) — each compared entry by entry (term, count) with the specification, nil must stay nil; plus Contains / PostingsList(+Count, Iterator) for present, absent and empty terms; " +
 			"evaluations = enumerations + lookups; non-trivial = full enumeration meeting both 1-hit and general encodings, or a non-empty result under a bound/automaton; distinct by (kind, field, live terms, bounds, automaton, encoding sequence)",
 		Assumptions: append([]string{"range bounds are nil or non-empty with start <= end"}, InputContract...),
-		Phases:      []runner.Phase{{Name: "enumerate", Cases: cases(150, 4000), Run: c08Run}},
+		Phases:      []runner.Phase{{Name: "enumerate", Cases: cases(1500, 40000), Run: c08Run}},
 		Floors: func(string) map[string]int64 {
 			return map[string]int64{"fields_general_after_1hit": 100, "enumerations.start==end": 500, "automaton.regexp": 200, "automaton.levenshtein": 200, "automaton.prefix": 200, "lookups.unknown-field.absent-term": 500}
 		},
